@@ -1,7 +1,8 @@
 import GlmVerif.Spec.C12
-import GlmVerif.Gen.C12
-/-! table check of family `trinormal` against the model generated from /repo (kernel evaluation) -/
+import GlmVerif.Gen.C12.trinormal
+/-! table check of family `trinormal` against the model of its units generated from /repo (kernel evaluation) -/
 namespace Glm.Props.C12
 open Glm Glm.Spec.C12 Glm.Gen.C12
-theorem trinormal_ok : f_trinormal.ok lookup = true := by decide +kernel
+set_option maxHeartbeats 4000000 in
+theorem trinormal_ok : f_trinormal.ok (fun _ ks => trinormal_L ks) = true := by decide +kernel
 end Glm.Props.C12
